@@ -1,14 +1,15 @@
 // C12 harness: etl::chrono duration / time_point arithmetic and rounding casts vs std::chrono (libstdc++),
 // on the same case lines as the Lean driver (lean/Tetl/C12/Driver.lean).
 //
-//   <op> r1=<i32|i64|f64> p1=<k> [r2=<..> p2=<k>] a=<int>|as=[..] [b=<int>]
+//   <op> r1=<i32|i64|f64> p1=<k> [r2=<..> p2=<k>] [rs=<i32|i64>] a=<int>|as=[..] [b=<int>]
 //
 // p1/p2 index the period table below (the Lean driver has the same table).  A count is given as an
 // integer; for an f64 representation the count is `a / 8.0` (so that halves, quarters and eighths occur).
 // With a list argument the op is evaluated for every element and the results are printed as `[r1,r2,...]`.
 // Integer results are printed in decimal, f64 results as `x<16 hex digits>` (the IEEE-754 bit pattern).
-// Free functions tetl does not declare (duration * rep, time_point + duration, ...) are detected with a
-// requires-expression: the harness prints `missing` for them and compiles either way.
+// rs is the type of the scalar operand of duration * rep, rep * duration, duration / rep, duration % rep (default: r1).
+// If one of the free functions of [time.duration.nonmember] / [time.point.nonmember] is not declared (a requires-expression
+// checks it) the harness still compiles and prints `missing` for that operation: a violation, not a build failure.
 #include "proto.hpp"
 
 #include <etl/chrono.hpp>
@@ -225,20 +226,28 @@ static void run2(Op2 op, ll a, ll b, Out& o)
         return;
     case TP_CMP: six(o, T1{d1}, T2{d2}); return;
     case TP_DIFF:
-        if constexpr (requires(T1 x, T2 y) { x - y; }) { auto r = T1{d1} - T2{d2}; o.put(r.count()); }
-        else o.special = 1;
+        if constexpr (requires(T1 x, T2 y) { x - y; }) {
+            auto r = T1{d1} - T2{d2};
+            static_assert(std::is_same_v<decltype(r), CD>);
+            o.put(r.count());
+        } else o.special = 1;
         return;
     case TP_PLUS:
         if constexpr (requires(T1 x, D2 y) { x + y; y + x; }) {
             auto r = T1{d1} + d2;
             auto q = d2 + T1{d1};
+            static_assert(std::is_same_v<decltype(r), typename L::template tp<CD>>);
+            static_assert(std::is_same_v<decltype(q), typename L::template tp<CD>>);
             o.put(r.time_since_epoch().count());
             o.put(q.time_since_epoch().count());
         } else o.special = 1;
         return;
     case TP_MINUS:
-        if constexpr (requires(T1 x, D2 y) { x - y; }) { auto r = T1{d1} - d2; o.put(r.time_since_epoch().count()); }
-        else o.special = 1;
+        if constexpr (requires(T1 x, D2 y) { x - y; }) {
+            auto r = T1{d1} - d2;
+            static_assert(std::is_same_v<decltype(r), typename L::template tp<CD>>);
+            o.put(r.time_since_epoch().count());
+        } else o.special = 1;
         return;
     case TP_CONV:    // the converting constructor time_point<Clock, D2>(time_point<Clock, D1>)
         if constexpr (std::is_convertible_v<D1, D2>) { T2 const r = T1{d1}; o.put(r.time_since_epoch().count()); }
@@ -261,8 +270,46 @@ static Op1 op1_of(std::string const& s)
     return OP1_BAD;
 }
 
+// duration<R1, P> op scalar of type RS
+template <typename L, typename D1, typename RS>
+static void scalar(Op1 op, D1 const& d1, ll b, Out& o)
+{
+    using R1 = typename D1::rep;
+    using CR = typename L::template common<R1, RS>;
+    RS const s = static_cast<RS>(b);
+    switch (op) {
+    case MUL:
+        if constexpr (requires(D1 x, RS y) { x * y; y * x; }) {
+            auto r = d1 * s;
+            auto q = s * d1;
+            static_assert(std::is_same_v<typename decltype(r)::rep, CR> && std::is_same_v<typename decltype(r)::period, typename D1::period>);
+            static_assert(std::is_same_v<decltype(q), decltype(r)>);
+            o.put(r.count());
+            o.put(q.count());
+        } else o.special = 1;
+        return;
+    case DIVR:
+        if constexpr (requires(D1 x, RS y) { x / y; }) {
+            auto r = d1 / s;
+            static_assert(std::is_same_v<typename decltype(r)::rep, CR> && std::is_same_v<typename decltype(r)::period, typename D1::period>);
+            o.put(r.count());
+        } else o.special = 1;
+        return;
+    case MODR:
+        if constexpr (is_fp<R1>) o.special = 2;
+        else if constexpr (requires(D1 x, RS y) { x % y; }) {
+            auto r = d1 % s;
+            static_assert(std::is_same_v<typename decltype(r)::rep, CR> && std::is_same_v<typename decltype(r)::period, typename D1::period>);
+            o.put(r.count());
+        } else o.special = 1;
+        return;
+    default: return;
+    }
+}
+
+// rs: the scalar type of MUL / DIVR / MODR for an integer R1 (0 = int32, 1 = int64); a double duration takes a double
 template <typename L, typename R1, int K1>
-static void run1(Op1 op, ll a, ll b, Out& o)
+static void run1(Op1 op, ll a, ll b, int rs, Out& o)
 {
     using D1 = typename L::template dur<R1, typename per<L, K1>::type>;
     using T1 = typename L::template tp<D1>;
@@ -288,17 +335,11 @@ static void run1(Op1 op, ll a, ll b, Out& o)
         else { d1 %= e1; o.put(d1.count()); }
         return;
     case MUL:
-        if constexpr (requires(D1 x, R1 y) { x * y; y * x; }) { o.put((d1 * rb).count()); o.put((rb * d1).count()); }
-        else o.special = 1;
-        return;
     case DIVR:
-        if constexpr (requires(D1 x, R1 y) { x / y; }) o.put((d1 / rb).count());
-        else o.special = 1;
-        return;
     case MODR:
-        if constexpr (is_fp<R1>) o.special = 2;
-        else if constexpr (requires(D1 x, R1 y) { x % y; }) o.put((d1 % rb).count());
-        else o.special = 1;
+        if constexpr (is_fp<R1>) scalar<L, D1, R1>(op, d1, b, o);
+        else if (rs == 0) scalar<L, D1, std::int32_t>(op, d1, b, o);
+        else scalar<L, D1, std::int64_t>(op, d1, b, o);
         return;
     case TP_ADDA: { T1 t{d1}; t += e1; o.put(t.time_since_epoch().count()); return; }
     case TP_SUBA: { T1 t{d1}; t -= e1; o.put(t.time_since_epoch().count()); return; }
@@ -326,7 +367,7 @@ static void run1(Op1 op, ll a, ll b, Out& o)
 
 // ---------------------------------------------------------------- dispatch tables
 using fn2 = void (*)(Op2, ll, ll, Out&);
-using fn1 = void (*)(Op1, ll, ll, Out&);
+using fn1 = void (*)(Op1, ll, ll, int, Out&);
 
 // Which (representation pair, period pair) combinations are instantiated (the same predicate is in c12.py):
 //   i64,i64 and f64,f64: the ten periods of the property x themselves; i64,i64 additionally the two alias
@@ -341,7 +382,7 @@ constexpr bool in_tp(int k) { return k == 0 || k == 2 || k == 3 || k == 4 || k =
 constexpr bool tp_enabled(int rc, int k1, int k2)
 {
     if (rc == 3) return (in_tp(k1) && in_tp(k2)) || k1 >= 10 || k2 >= 10;
-    if (rc == 4) return in_sub(k1) && in_sub(k2);
+    if (rc == 4 || rc <= 2) return in_sub(k1) && in_sub(k2);
     return false;
 }
 constexpr bool enabled(int rc, int k1, int k2)
@@ -502,11 +543,13 @@ int main(int argc, char** argv)
             Op1 const o1 = op1_of(l.op);
             int const r  = r_of(l.str("r1"));
             if (o1 == OP1_BAD || r < 0 || te.t1[r][p1] == nullptr) return bad;
+            int const rs = l.has("rs") ? r_of(l.str("rs")) : r;
+            if (rs < 0 || (rs == 2) != (r == 2)) return bad;
             bool first = true;
             for (ll a : as) {
                 Out x, y;
-                te.t1[r][p1](o1, a, b, x);
-                ts.t1[r][p1](o1, a, b, y);
+                te.t1[r][p1](o1, a, b, rs, x);
+                ts.t1[r][p1](o1, a, b, rs, y);
                 emit(fmt(x), fmt(y), first);
                 first = false;
             }
